@@ -441,6 +441,105 @@ class GlobalExecSpec(TallySpec):
                 'nontrivial': int(any(outcomes.traces(k) for k in kinds))}
 
 
+PROJECT_FILES = {
+    'none': {},
+    'pytest.ini:empty': {'pytest.ini': ''},
+    'pytest.ini:other-section': {'pytest.ini': '[tool:other]\nkey = 1\n'},
+    'pytest.ini:no-option': {'pytest.ini': '[pytest]\naddopts = -q\n'},
+    'pytest.ini:+SKIP': {'pytest.ini': '[pytest]\nxdoctest_options = +SKIP\n'},
+    'pyproject:empty': {'pyproject.toml': ''},
+    'pyproject:other-tool': {'pyproject.toml': '[tool.other]\nkey = 1\n'},
+    'pyproject:+SKIP': {'pyproject.toml': '[tool.xdoctest]\noptions = "+SKIP"\n'},
+    'both:pyproject+SKIP,ini-empty': {'pyproject.toml': '[tool.xdoctest]\noptions = "+SKIP"\n', 'pytest.ini': ''},
+}
+
+
+class ProjectFileSpec(TallySpec):
+    """the command line reads default options from ./pyproject.toml and ./pytest.ini; whatever those files hold (nothing, other
+    tools' sections, the option), the run ends with a tally that matches the by-construction outcomes under the option they
+    define, and the exit status follows the tally"""
+    title = 'modules x project files in the working directory through the command line'
+
+    def __init__(self, name, max_len):
+        TallySpec.__init__(self, name, max_len, max_cost=2)
+        self.rule = ('history = sequence of <= %d doctests (cost <= 2) x project files %r x verbosity 1, CLI main with that '
+                     'directory as cwd; non-trivial = a project file is present' % (max_len, list(PROJECT_FILES)))
+
+    def run_case(self, hist):
+        from xdoctest.__main__ import main as xmain
+        kinds = list(hist)
+        atoms = []
+        n_runs = 0
+        names = [outcomes.fname(j) for j in range(len(kinds))]
+        with harness.scratch_dir('c10p') as d:
+            tracefile = os.path.join(d, 'trace.txt')
+            src = outcomes.module_source(kinds, tracefile)
+            modname = harness.unique_modname('m10p', src)
+            path = os.path.join(d, modname + '.py')
+            with open(path, 'w') as f:
+                f.write(src)
+            cwd = os.getcwd()
+            os.chdir(d)
+            try:
+                for pname, files in PROJECT_FILES.items():
+                    for fn in ('pytest.ini', 'pyproject.toml'):
+                        if os.path.exists(fn):
+                            os.unlink(fn)
+                    for fn, content in files.items():
+                        with open(fn, 'w') as f:
+                            f.write(content)
+                    opt = '+SKIP' if '+SKIP' in pname else None
+                    outs = [outcomes.outcome(k, opt) for k in kinds]
+                    n_pass, n_fail, n_skip = outs.count('passed'), outs.count('failed'), outs.count('skipped')
+                    exp_trace = ''.join(n + ';' for n, k in zip(names, kinds) if outcomes.traces(k, opt))
+                    buf = io.StringIO()
+                    rc = raised = None
+                    with contextlib.redirect_stdout(buf), contextlib.redirect_stderr(buf), harness.fresh_process_warning_filters():
+                        try:
+                            rc = xmain(['xdoctest', path, 'all', '--verbose=1', '--nocolor'])
+                        except SystemExit as ex:
+                            rc = ex.code
+                        except BaseException as ex:
+                            if type(ex).__name__ == 'CaseTimeout':
+                                raise
+                            raised = ex
+                    n_runs += 1
+                    harness.forget_modules(modname)
+                    tr = ''
+                    if os.path.exists(tracefile):
+                        tr = open(tracefile).read()
+                        os.unlink(tracefile)
+                    if raised is not None:
+                        atoms.append({'sig': 'project-file:%s:raises:%s' % (pname, type(raised).__name__), 'msg': repr(raised)})
+                        continue
+                    if tr != exp_trace:
+                        atoms.append({'sig': 'project-file:%s:executed-set' % pname, 'msg': 'executed %r, expected %r' % (tr, exp_trace)})
+                    if (rc != 0) != (n_fail > 0):
+                        atoms.append({'sig': 'project-file:%s:exit-status' % pname, 'msg': 'exit status %r with %d failing doctest(s)' % (rc, n_fail)})
+                    m = SUMMARY_RE.findall(buf.getvalue())
+                    if n_pass + n_fail + n_skip > 0:
+                        got = {}
+                        if m:
+                            for part in m[-1].split(', '):
+                                if ' ' in part:
+                                    num, word = part.split(' ')
+                                    got[word] = int(num)
+                            got.pop('warnings', None)
+                        exp = {k: v for k, v in (('failed', n_fail), ('passed', n_pass), ('skipped', n_skip)) if v}
+                        if got != exp:
+                            atoms.append({'sig': 'project-file:%s:summary-line' % pname, 'msg': 'summary %r, expected %r' % (got, exp)})
+            finally:
+                os.chdir(cwd)
+                harness.forget_modules(modname)
+        seen = set()
+        uniq = []
+        for a in atoms:
+            if a['sig'] not in seen:
+                seen.add(a['sig'])
+                uniq.append(a)
+        return {'atoms': uniq, 'n': n_runs, 'outcome': 'ok' if not uniq else 'bad', 'case': {'kinds': kinds, 'module': src}, 'nontrivial': 1}
+
+
 class CmdNameSpec(TallySpec):
     """the tally specs for modules whose callables bear the names of the runner's commands (all, list, dump)"""
     title = 'modules whose callables are named all / list / dump through the native runner'
@@ -459,5 +558,5 @@ class CmdNameSpec(TallySpec):
 
 def specs(tier):
     if tier == 'thorough':
-        return [TallySpec('modules<=3', 3), TallySpec('modules=4', 4, min_len=4, max_cost=4), MultiBlockSpec(), CliSpec('cli<=3', 3, max_cost=4), GlobalExecSpec('global-exec<=3', 3), CmdNameSpec('command-names<=3', 3, max_cost=4)]
-    return [TallySpec('modules<=2', 2), TallySpec('modules=3', 3, min_len=3, max_cost=3), MultiBlockSpec(), CliSpec('cli<=2', 2), GlobalExecSpec('global-exec<=2', 2), CmdNameSpec('command-names<=2', 2, max_cost=3)]
+        return [TallySpec('modules<=3', 3), TallySpec('modules=4', 4, min_len=4, max_cost=4), MultiBlockSpec(), CliSpec('cli<=3', 3, max_cost=4), GlobalExecSpec('global-exec<=3', 3), CmdNameSpec('command-names<=3', 3, max_cost=4), ProjectFileSpec('project-files<=3', 3)]
+    return [TallySpec('modules<=2', 2), TallySpec('modules=3', 3, min_len=3, max_cost=3), MultiBlockSpec(), CliSpec('cli<=2', 2), GlobalExecSpec('global-exec<=2', 2), CmdNameSpec('command-names<=2', 2, max_cost=3), ProjectFileSpec('project-files<=2', 2)]
